@@ -9,6 +9,12 @@
 //            rres = (panicked errkind pkt consumed wanted maxcap)
 // input    (3 data (chunk ...))                                  WriteLenData / ReadLenData
 // observed ((panicked ret err (#write ...)) (panicked errkind #data consumed wanted maxcap))
+// input    (7 variant ver thrArg cipher keyseed pkt)              usage variants, evaluated here (observed: code, what;
+// observed (code #what)                                          code 0 = fine, 4 = caller's data touched, 6 = round trip):
+//            1 body is a sub-slice of a larger buffer (neighbours, spare capacity)   2 relay: decode, re-encode the
+//            decoded packet with the other codec   3 decode into a used packet after Reset()   4 written in clear,
+//            read by a reader holding a decryptor   5 UnmarshalPacket on sub-slices of one buffer   6 header accessors
+//            7 two codecs decoding two streams alternately, GC in between, packets compared at the end
 // input    (8 ver thrArg cipher keyseed pkt k)                    WritePacket into a writer that fails after k bytes,
 // observed ((enc) (zip) wres accepted wfailed wres2)             then the same packet (fresh object) into a good writer
 // input    (9 data k)                                            WriteLenData into such a writer
@@ -28,6 +34,7 @@ import (
 	"io"
 	"log"
 	"math"
+	"runtime"
 	"sync"
 
 	"qchen.fun/fatchoy"
@@ -416,6 +423,230 @@ func runLimit(in Sx) Sx {
 	return List(Bool(panicked), Int(int64(n)), Bool(err != nil), Int(int64(len(w.b))), Int(int64(w.nwrite)), Bool(decoded))
 }
 
+func samePacket(ver int, orig, q *packet.Packet, want []byte) bool {
+	var got []byte
+	if q.Body_ != nil {
+		if pb, _ := Catch(func() { got = q.BodyToBytes() }); pb {
+			return false
+		}
+	}
+	if q.Cmd != orig.Cmd || q.Seq_ != orig.Seq_ || q.Flg != orig.Flg&^3 || !bytes.Equal(got, want) {
+		return false
+	}
+	if ver == 2 {
+		if q.Type_ != orig.Type_ || q.Node_ != orig.Node_ || len(q.Refers_) != len(orig.Refers_) {
+			return false
+		}
+		for i := range q.Refers_ {
+			if q.Refers_[i] != orig.Refers_[i] {
+				return false
+			}
+		}
+	}
+	return true
+}
+
+func runVariant(in Sx) Sx {
+	variant, ver, thr, cidx, keyseed := in.At(1).AsInt(), in.At(2).AsInt(), in.At(3).AsInt(), in.At(4).AsInt(), in.At(5).Uint64()
+	res := func(code int, what string) Sx { return List(Int(int64(code)), Str(what)) }
+	orig := PacketFromSx(in.At(6))
+	var want []byte
+	if orig.Body_ != nil {
+		want = append([]byte(nil), orig.BodyToBytes()...)
+	}
+	enc := NewEncoder(ver, thr)
+	other := NewEncoder(3-ver, thr)
+	encode := func(e codec.Encoder, p *packet.Packet, c int) ([]byte, bool) {
+		var w bytes.Buffer
+		var err error
+		pn, _ := Catch(func() { _, err = e.WritePacket(&w, NewCipher(c, keyseed), p) })
+		return w.Bytes(), !pn && err == nil
+	}
+	decode := func(e codec.Encoder, frame []byte, c int, into *packet.Packet) bool {
+		var err error
+		pn, _ := Catch(func() { err = e.ReadPacket(bytes.NewReader(frame), NewCipher(c, keyseed), into) })
+		return !pn && err == nil
+	}
+	switch variant {
+	case 1: // the body is a window of a larger buffer
+		b, ok := orig.Body_.([]byte)
+		if !ok {
+			return res(0, "")
+		}
+		spare := int(keyseed % 5 * 7)
+		big := make([]byte, 8+len(b)+spare+8)
+		for i := range big {
+			big[i] = 0xA5
+		}
+		copy(big[8:], b)
+		p := PacketFromSx(in.At(6))
+		p.Body_ = big[8 : 8+len(b) : 8+len(b)+spare]
+		frame, okw := encode(enc, p, cidx)
+		for i := 0; i < 8; i++ {
+			if big[i] != 0xA5 || big[len(big)-1-i] != 0xA5 {
+				return res(4, "bytes next to the body window changed")
+			}
+		}
+		for i := 8 + len(b); i < len(big); i++ {
+			if big[i] != 0xA5 {
+				return res(4, "spare capacity behind the body changed")
+			}
+		}
+		q := packet.Make()
+		if okw && (!decode(enc, frame, cidx, q) || !samePacket(ver, orig, q, want)) {
+			return res(6, "sub-slice body did not round-trip")
+		}
+	case 2: // relay
+		frame, okw := encode(enc, PacketFromSx(in.At(6)), cidx)
+		if !okw {
+			return res(0, "")
+		}
+		q := packet.Make()
+		if !decode(enc, frame, cidx, q) {
+			return res(6, "first hop did not decode")
+		}
+		q.Type_, q.Node_, q.Refers_ = orig.Type_, orig.Node_, orig.Refers_ // a V1 hop does not carry them
+		frame2, ok2 := encode(other, q, 0)
+		r := packet.Make()
+		if ok2 && (!decode(other, frame2, 0, r) || !samePacket(3-ver, orig, r, want)) {
+			return res(6, "relayed packet differs")
+		}
+	case 3: // a used packet after Reset
+		frame, okw := encode(enc, PacketFromSx(in.At(6)), cidx)
+		if !okw {
+			return res(0, "")
+		}
+		used := packet.Make()
+		filler := packet.Make()
+		filler.Cmd, filler.Seq_, filler.Flg, filler.Type_, filler.Node_ = 7, 8, 0x30, 3, 99
+		filler.AddRefers(1, 2, 3)
+		filler.Body_ = int64(-5)
+		f0, _ := encode(NewEncoder(2, 0), filler, 0)
+		decode(NewEncoder(2, 0), f0, 0, used)
+		used.Reset()
+		if !decode(enc, frame, cidx, used) || !samePacket(ver, orig, used, want) {
+			return res(6, "decode into a Reset packet differs")
+		}
+	case 4: // written in clear, the reader holds a decryptor
+		frame, okw := encode(enc, PacketFromSx(in.At(6)), 0)
+		q := packet.Make()
+		c := cidx
+		if c == 0 {
+			c = 1
+		}
+		if okw && (!decode(enc, frame, c, q) || !samePacket(ver, orig, q, want)) {
+			return res(6, "clear frame not readable by a reader with a decryptor")
+		}
+	case 5: // UnmarshalPacket on windows of one buffer
+		frame, okw := encode(enc, PacketFromSx(in.At(6)), cidx)
+		if !okw {
+			return res(0, "")
+		}
+		hs := HeaderSize(ver)
+		big := make([]byte, 5+len(frame)+9)
+		for i := range big {
+			big[i] = 0x5A
+		}
+		copy(big[5:], frame)
+		q := packet.Make()
+		var err error
+		pn, _ := Catch(func() { err = enc.UnmarshalPacket(big[5:5+hs:5+hs], big[5+hs:5+len(frame)], NewCipher(cidx, keyseed), q) })
+		if pn || err != nil || !samePacket(ver, orig, q, want) {
+			return res(6, "UnmarshalPacket on sub-slices differs")
+		}
+		for i := 0; i < 5; i++ {
+			if big[i] != 0x5A {
+				return res(4, "bytes before the header window changed")
+			}
+		}
+		for i := 5 + len(frame); i < len(big); i++ {
+			if big[i] != 0x5A {
+				return res(4, "bytes behind the payload window changed")
+			}
+		}
+	case 6: // header accessors and codec constants
+		p := PacketFromSx(in.At(6))
+		frame, okw := encode(enc, p, cidx)
+		if !okw {
+			return res(0, "")
+		}
+		if enc.Version() != ver || enc.Name() != []string{"", "V1", "V2"}[ver] || codec.GetEncoder(enc.Name()) == nil || codec.GetEncoder(enc.Name()).Version() != ver {
+			return res(6, "Version/Name/registry")
+		}
+		bad := false
+		pn, _ := Catch(func() {
+			if ver == 1 {
+				h := codec.V1Header(frame[:codec.V1HeaderSize])
+				bad = int(h.Len()) != len(frame) || h.Type() != byte(p.Type_) || h.Flag() != byte(p.Flg) || h.Seq() != p.Seq_ ||
+					h.Command() != p.Cmd || h.Checksum() != h.CalcChecksum(frame[codec.V1HeaderSize:]) || len(h.MD5Sum()) != 32
+			} else {
+				h := codec.V2Header(frame[:codec.V2HeaderSize])
+				bad = int(h.Len()) != len(frame) || h.Type() != byte(p.Type_) || h.Flag() != byte(p.Flg) || int(h.RefCount()) != len(p.Refers_) ||
+					h.Seq() != p.Seq_ || h.Node() != p.Node_ || h.Command() != p.Cmd ||
+					h.Checksum() != h.CalcChecksum(nil, frame[codec.V2HeaderSize:]) || len(h.MD5Sum()) != 32
+			}
+		})
+		if pn || bad {
+			return res(6, "header accessors disagree with the packet")
+		}
+	case 7: // two codecs, two streams, alternately; GC in between; compare at the end
+		var sa, sb []byte
+		var pa, pb []*packet.Packet
+		for i := 0; i < 6; i++ {
+			p := PacketFromSx(in.At(6))
+			p.Seq_ += uint16(i)
+			if b, ok := p.Body_.([]byte); ok && len(b) > 0 {
+				b[0] ^= byte(i)
+			}
+			o := p.Clone().(*packet.Packet)
+			o.Type_, o.Node_ = p.Type_, p.Node_
+			if b, ok := p.Body_.([]byte); ok {
+				o.Body_ = append([]byte(nil), b...)
+			}
+			if i%2 == 0 {
+				f, ok := encode(enc, p, 0)
+				if !ok {
+					return res(0, "")
+				}
+				sa, pa = append(sa, f...), append(pa, o)
+			} else {
+				f, ok := encode(other, p, 0)
+				if !ok {
+					return res(0, "")
+				}
+				sb, pb = append(sb, f...), append(pb, o)
+			}
+		}
+		ra, rb := bufio.NewReader(bytes.NewReader(sa)), bufio.NewReader(bytes.NewReader(sb))
+		var qa, qb []*packet.Packet
+		for i := 0; i < 3; i++ {
+			q1, q2 := packet.Make(), packet.Make()
+			var e1, e2 error
+			Catch(func() { e1 = enc.ReadPacket(ra, nil, q1) })
+			runtime.GC()
+			Catch(func() { e2 = other.ReadPacket(rb, nil, q2) })
+			if e1 != nil || e2 != nil {
+				return res(6, "interleaved decode failed")
+			}
+			qa, qb = append(qa, q1), append(qb, q2)
+		}
+		runtime.GC()
+		for i := 0; i < 3; i++ {
+			wa, wb := []byte(nil), []byte(nil)
+			if pa[i].Body_ != nil {
+				wa = pa[i].BodyToBytes()
+			}
+			if pb[i].Body_ != nil {
+				wb = pb[i].BodyToBytes()
+			}
+			if !samePacket(ver, pa[i], qa[i], wa) || !samePacket(3-ver, pb[i], qb[i], wb) {
+				return res(6, "packets of two interleaved streams differ at the end")
+			}
+		}
+	}
+	return res(0, "")
+}
+
 // limWriter accepts k bytes in all; a Write that does not fit takes what fits and fails
 type limWriter struct {
 	left     int
@@ -481,6 +712,8 @@ func run(in Sx) Sx {
 		return runLenData(in)
 	case 4:
 		return runLimit(in)
+	case 7:
+		return runVariant(in)
 	case 8:
 		return runFailingWriter(in)
 	case 9:
@@ -539,7 +772,13 @@ func genPacket(rng *Rng, ver, thr int, bodyLen int, kindHint int, out *Out) (Sx,
 	if bk < 0 {
 		bk = rng.PickInt(0, 1, 1, 1, 2, 3, 4, 5, 5)
 	}
+	if (bk == 1 || bk == 2) && bodyLen == 0 && rng.Bool() {
+		bk += 6 // typed nil []byte / empty string instead of an empty non-nil slice
+	}
 	switch bk {
+	case 7, 8:
+		body = List(Int(int64(bk)))
+		kind = "nilbody"
 	case 0:
 		body = List(Int(0))
 		kind = "nilbody"
@@ -777,6 +1016,33 @@ func gen(a Args, out *Out) {
 				out.Case("concurrent", true, in, obs)
 				out.GoChecked += obs.At(0).Int64()
 			}
+		}
+	}
+	// 1g. usage variants (docs/LESSONS.md 5, 6, 7, 10, 11, 14): see runVariant
+	nvar := 30
+	if a.Thorough() {
+		nvar = 300
+	}
+	for variant := 1; variant <= 7; variant++ {
+		for i := 0; i < nvar; i++ {
+			ver := rng.PickInt(1, 2)
+			thr := rng.PickInt(0, 16, 1<<24)
+			bk := rng.PickInt(1, 1, 2, 3, 5)
+			if variant == 1 || variant == 7 {
+				bk = 1
+			}
+			p, kd := genPacket(rng, ver, thr, rng.PickInt(0, 1, 9, 33, 64, 200, 5000), bk, out)
+			if kd != "plain" {
+				continue
+			}
+			cidx := rng.PickInt(0, 1+rng.Intn(len(CipherNames)-1))
+			if variant == 2 || variant == 7 {
+				if bk <= 2 || bk == 5 {
+					cidx = 0 // in-place encryption of byte bodies is the known hazard outside the statement
+				}
+			}
+			emit("variant", List(Int(7), Int(int64(variant)), Int(int64(ver)), Int(int64(thr)), Int(int64(cidx)), Uint(rng.Next()&0xFFFFFFFF), p))
+			out.Count("variant:" + string(rune('0'+variant)))
 		}
 	}
 	// 1f. a writer that fails after k bytes (before the header, inside it, between header and body,
